@@ -49,11 +49,15 @@ def save_check(ctx, t, fails, where):
         ctx.hist("save_reopen", "%s %s" % (label, r[0] if r[0] == "ok" else "raises-%s-%s" % (r[1], r[2])))
         case = {"recipe": list(w.recipe), "ops": T.ops_to_json(t.ops), "document": d}
         if r[0] == "raises":
-            api_layers = any(getattr(l, "_verif_api", False) or True for l in psd.descendants())
             deep = psd.depth != 8
             cmyk = psd.pil_mode == "CMYK"
-            if r[1] == "save" and (deep or cmyk) and len(list(psd.descendants())) > 0:
-                sig = "C09/save-raises/%s" % ("cmyk-document" if cmyk else "pixel-layer-in-deep-document")
+            depths = {w.objs[x].depth for x in w.docs()}
+            if r[1] == "save" and cmyk:
+                sig = "C09/save-raises/cmyk-document"
+            elif r[1] == "save" and deep and w.recipe[0] != "fixture":
+                sig = "C09/save-raises/pixel-layer-in-deep-document"
+            elif r[1] == "save" and len(depths) > 1:
+                sig = "C09/save-raises/cross-depth-adoption"
             else:
                 sig = "C09/save-raises/%s-%s/%s" % (r[1], r[2], label)
             fails.append((sig, "%s of document %d (%s) raises %s after the history" % (r[1], d, label, r[2]), case))
